@@ -188,7 +188,7 @@ PROPS['C08'] = dict(
          'whose elimination is exact: zero column, bit-identical rows, zero row (PLU); integer unit-L * D * L^T with a zero in D (LDL^T); integer L*L^T with a zero diagonal entry or a pivot made negative (LL^T); '
          'badly scaled block-diagonal classes (uncoupled blocks multiplied by 4^S, S over +-505 / +-57 / +-8185 by type: pivots from ~min to ~max in one matrix; solve and inverse are skipped there), strided triangular solves (lower_/upper_) on one column of an n x n block, solves with the factors returned by plu_L / plu_U / llt_L; symmetric inputs get their strict upper triangle poisoned in half of the cases (the code reads only the lower triangle). Oracle in long double: permutation + parity = sign, |L_ij| <= 1, positive Cholesky diagonal, '
          'componentwise |PA-LU| <= 4*gamma_n|L||U| (gamma_2n for LDL^T, gamma_{n+1} for LL^T, lower triangle), solve / inv / inv_ residuals |b-Ax| <= 4*gamma_{3n(+2)}*(|L||D||L^T|)|x|, det/lndet/sgndet against '
-         'products/sums of the stored pivots and against each other, extraction helpers exact, singular classes must fail and dominant classes must succeed. non-trivial = n >= 4 and (a row exchange happened, or a '
+         'products/sums of the stored pivots and against each other, extraction helpers exact, the determinant family also on a compact factor written by the caller (diagonal with exact zeros of either sign, negative entries, one entry at the smallest normal: sgndet must be the sign product or 0, det 0 and lndet -inf with a zero), solve / inverse / determinant routines also with their const inputs in read-only memory (same bits), singular classes must fail and dominant classes must succeed. non-trivial = n >= 4 and (a row exchange happened, or a '
          'non-default symmetric class, or a singular class that was reported); distinct = hash of (kind, n, matrix entries)',
     assumptions=COMMON_ASSUME + ['entries are kept in an exponent window where no intermediate of the elimination over/underflows; cases whose factors still become non-finite are counted under excluded_by_construction',
                                  'singular matrices from real-valued constructions other than the exact classes are not required to fail',
